@@ -233,13 +233,19 @@ func c14Case(c *rep.Ctx, r c14Replay, full string) {
 		return
 	}
 	if !errors.Is(err, errInjR) {
-		// legitimate only if the delivered prefix is itself rejected by a healthy run
+		// legitimate only if the complete lines delivered before the failure are themselves rejected by a healthy run
+		// (a line cut short by the failure is not "input": the reader's error, not a complaint about that fragment, is due)
 		pr := r
 		pr.Doc = r.Doc[:r.Reader]
+		if i := strings.LastIndexByte(pr.Doc, '\n'); i >= 0 {
+			pr.Doc = pr.Doc[:i+1]
+		} else {
+			pr.Doc = ""
+		}
 		pr.Reader, pr.Writer = -1, 0
 		perr, _ := c14CallEOF(pr, &failWriter{})
 		if perr == nil {
-			c.Violation("C14|reader-error-masked|"+r.Mode, fmt.Sprintf("%s: returned %q which is not the reader's error, although the delivered prefix %q is acceptable", desc, err, pr.Doc), size, r)
+			c.Violation("C14|reader-error-masked|"+r.Mode, fmt.Sprintf("%s: returned %q which is not the reader's error, although the complete lines delivered before the failure (%q) are acceptable", desc, err, pr.Doc), size, r)
 		} else {
 			c.Inc("reader_fault_prefix_itself_rejected")
 		}
